@@ -180,6 +180,8 @@ func c20RandName(r *rand.Rand) string {
 		return []string{"a*", "*", "a*b", "*.a"}[r.Intn(4)]
 	case 2:
 		return "." + string("ab"[r.Intn(2)])
+	case 3:
+		return []string{"A", "Ab", "aB", "B.a"}[r.Intn(4)]
 	}
 	for {
 		n := 1 + r.Intn(3)
@@ -377,6 +379,14 @@ func init() {
 				Fields: []string{hx(p), hx("a*."), "3"}, Meta: map[string]string{}})
 			st.Counts["rows"]++
 			st.Counts["row_pairs"] += nStarNames
+		}
+		//    case matters
+		nCaseNames := len(c20Names("aA", 3))
+		for i, p := range c20Patterns("aA*", 3, 3) {
+			cases = append(cases, Case{ID: fmt.Sprintf("rowcase%d", i), Op: "pathmatchrow",
+				Fields: []string{hx(p), hx("aA"), "3"}, Meta: map[string]string{}})
+			st.Counts["rows"]++
+			st.Counts["row_pairs"] += nCaseNames
 		}
 		// 2. longer random (name, pattern) pairs, the name derived from the pattern half of the time
 		for i := 0; i < sizes(tier, 1500, 60000); i++ {
